@@ -355,7 +355,15 @@ func checkCommitments(n *Node, bi *BlockInfo, reorg bool, fail func(class, witne
 
 func TestC06(t *testing.T) {
 	chainPropertyCfg(t, "C06", true, func(r *Runner, fail func(class, witness, detail string)) Hooks {
-		return Hooks{AfterHead: func(w *World, n *Node, bi *BlockInfo, reorg bool) { checkCommitments(n, bi, reorg, fail) }}
+		heads := 0
+		return Hooks{AfterHead: func(w *World, n *Node, bi *BlockInfo, reorg bool) {
+			checkCommitments(n, bi, reorg, fail)
+			// the validator's verdict on a Qi transaction is a function of the transaction and the chain, not of what this node has
+			// cached about it (two nodes must agree on every block)
+			if heads++; !reorg && heads%4 == 0 {
+				directQiVerdicts(n, heads+int(bi.Number), fail, "honest-spend", "merge-small-notes", "outputs-exceed-inputs", "dup-outpoint-in-one-tx")
+			}
+		}}
 	})
 }
 
